@@ -239,7 +239,7 @@ fn run_property(cfg: &Cfg) -> Result<Outcome, String> {
         "C12" => run_boards(
             cfg,
             BoardRun {
-                mix: Mix { mating: 30, fewmovers: 25, walk_pct: 50, clock_edge_pct: 40, ..Mix::GENERAL },
+                mix: Mix { mating: 30, fewmovers: 25, special: 20, walk_pct: 50, clock_edge_pct: 40, ..Mix::GENERAL },
                 quick: 3_000_000,
                 thorough: 80_000_000,
                 small: true,
@@ -352,6 +352,7 @@ fn run_property(cfg: &Cfg) -> Result<Outcome, String> {
                     fl("after-null-move", 2000),
                     fl("one-sided-rights", 5000),
                     fl("canonical-records-accepted", 10_000),
+                    fl("longest_record_chars", 91),
                 ],
             },
             C07::new,
